@@ -8,6 +8,10 @@
 #include <pthread.h>
 #include <sys/syscall.h>
 #include <unistd.h>
+#include <cstdio>
+#include <cstdlib>
+
+extern "C" void __sanitizer_symbolize_pc(void* pc, const char* fmt, char* out_buf, size_t out_buf_size);
 
 namespace sim {
 
@@ -66,8 +70,12 @@ int runnable_others(int me, int* out)
 
 void note_switch(int from, int to, uint32_t id)
 {
+	if (getenv("SIM_SWLOG")) fprintf(stderr, "SW %d %d %u %llu\n", from, to, id, (unsigned long long)g_steps);
 	++g_switches;
-	uint64_t rec[3] = { static_cast<uint64_t>(from), static_cast<uint64_t>(to), id };
+	// identity of a switch = who, to whom, after how many yield points (the guard number of the interrupted block is not used:
+	// which of two equivalent blocks of one source line runs can differ between processes)
+	(void)id;
+	uint64_t rec[3] = { static_cast<uint64_t>(from), static_cast<uint64_t>(to), g_steps };
 	g_switch_hash = fnv1a(rec, sizeof rec, g_switch_hash);
 }
 
@@ -105,6 +113,13 @@ void sched_yield_point(uint32_t id)
 {
 	if (t_index < 0 || t_no_preempt != 0) return;
 	++g_steps;
+	static FILE* ylog = getenv("SIM_YLOG") ? fopen(getenv("SIM_YLOG"), "w") : nullptr;
+	if (ylog)
+	{
+		char buf[256] = "";
+		if (id != 0xA110C && id != 0x57E4) __sanitizer_symbolize_pc(__builtin_return_address(1), "%f:%l", buf, sizeof buf);
+		fprintf(ylog, "%llu t%d %u %s\n", (unsigned long long)g_steps, t_index, id, buf);
+	}
 	if (g_sw_idx >= g_plan->nSwitches || g_steps < g_next_switch_at) return;
 
 	const uint32_t sw = g_sw_idx++;
